@@ -17,6 +17,8 @@ type Key struct {
 	Addr    []byte
 	EdPub   []byte
 	EdPriv  []byte
+	EdPub2  []byte // alternate generator key pair of the same validator (generator-key rotation)
+	EdPriv2 []byte
 	BLSPub  []byte
 	BLSPriv []byte
 }
@@ -37,7 +39,11 @@ func Keys() []*Key {
 				panic(err)
 			}
 			bls := crypto.BLSKeyGen(crypto.Hash([]byte(fmt.Sprintf("verif harness validator bls key %d padded to 32 bytes", i))))
-			keyPool = append(keyPool, &Key{Index: i, Addr: crypto.GetAddress(pub), EdPub: pub, EdPriv: priv, BLSPub: bls.PublicKey, BLSPriv: bls.PrivateKey})
+			pub2, priv2, err := crypto.GetKeys(fmt.Sprintf("verif harness validator %d rotated generator key", i))
+			if err != nil {
+				panic(err)
+			}
+			keyPool = append(keyPool, &Key{Index: i, Addr: crypto.GetAddress(pub), EdPub: pub, EdPriv: priv, EdPub2: pub2, EdPriv2: priv2, BLSPub: bls.PublicKey, BLSPriv: bls.PrivateKey})
 		}
 	})
 	return keyPool
